@@ -6,6 +6,13 @@ VERIF = os.path.dirname(os.path.dirname(os.path.abspath(__file__)))
 
 # id -> (category, technique, text, note)
 CLAIMS = {
+    'C07': ('other',
+            'static analysis: call-closure effect check of the evaluator read phase, def-use chain of the values written to the pool, expression-vs-integer comparison typing, early-return flag audit',
+            'Decides that every source is evaluated in the pre-state (nothing reachable from get_instr_mod writes self.pool; eval_instr calls it once before its first '
+            'pool store and stores only values derived from its result via expr_simp/ExprInt), that no ==/!= compares an IR expression with a Python integer (the rep '
+            'termination tests in particular), and that eval_expr only short-cuts on flags never set on shared nodes.',
+            'Not decided: the overlap arithmetic of memory writes (depends on the history of widths/offsets). The is_eval shortcut is a known finding (an existing '
+            'test encodes its effect).'),
     'C12': ('other',
             'static analysis: ownership/effect classification of every store site (reaching-definition freshness, interprocedural parameter-mutation fixpoint), audit of the PLY table-cache guard',
             'Decides the existence of hidden state channels: memo flags is_eval/is_term only on nodes created in the same function; no mutable default argument that is '
